@@ -65,6 +65,9 @@ use self::{
 pub mod reporting;
 mod store;
 mod task;
+
+#[cfg(feature = "verif_hooks")]
+pub use task::verif as task_verif;
 #[cfg(test)]
 mod tests;
 
